@@ -396,6 +396,8 @@ func specs() []spec {
 			ZeroHeightKeeps: map[string][]string{"htlc": {"/htlcs[]", "/supplies[]"}},
 			Prep:            func(e *mc.Env, ctx sdk.Context) { htlc.PrepForZeroHeightGenesis(ctx, e.HTLC) }}, q: 4, t: 5},
 		{name: "token", mk: c09.New(c09v), rt: mc.RoundTripSpec{Modules: []string{"token"}, Query: qToken, Gov: govToken}, q: 4, t: 5},
+		{name: "token-identity", mk: c09.New(find(c09.Variants(), func(v c09.Variant) string { return v.Name }, "identity")),
+			rt: mc.RoundTripSpec{Modules: []string{"token"}, Query: qToken}, q: 3, t: 4},
 		{name: "token-erc20-registration", mk: c09.New(find(c09.Variants(), func(v c09.Variant) string { return v.Name }, "identity-erc20-registration")),
 			rt: mc.RoundTripSpec{Modules: []string{"token"}, Query: qToken}, q: 3, t: 4},
 		{name: "nft", mk: c14.New(c14.Variants()[1]), rt: mc.RoundTripSpec{Modules: []string{"nft"}, Query: qNFT}, q: 3, t: 4},
